@@ -148,6 +148,62 @@ def _invalidation_sites(ix, f, attr):
     return sorted(set(out))
 
 
+def _module_memos(ix, f):
+    """{name: condition text} of module-level containers ({} / [] / dict() / set() at module scope) that f both tests
+    (`key in G`, `G.get(key)`) and fills (`G[key] = v`, G.update / setdefault / append / add), and that no other
+    function of the module empties (G.clear(), `global G; G = ...`, del G[...])"""
+    import ast as _ast
+    conts = set()
+    for st in f.module.tree.body:
+        if isinstance(st, _ast.Assign) and len(st.targets) == 1 and isinstance(st.targets[0], _ast.Name):
+            v = st.value
+            if isinstance(v, (_ast.Dict, _ast.List, _ast.Set)) and not (getattr(v, 'keys', None) or getattr(v, 'elts', None)):
+                conts.add(st.targets[0].id)
+            elif isinstance(v, _ast.Call) and isinstance(v.func, _ast.Name) and v.func.id in ('dict', 'list', 'set', 'OrderedDict', 'defaultdict') and not v.args:
+                conts.add(st.targets[0].id)
+    if not conts:
+        return {}
+    local = {n.id for n in _ast.walk(f.node) if isinstance(n, _ast.Name) and isinstance(n.ctx, _ast.Store)}
+    glob = {x for n in _ast.walk(f.node) if isinstance(n, _ast.Global) for x in n.names}
+    conts = {c for c in conts if c not in local or c in glob}
+
+    def fills(node, g):
+        for n in _ast.walk(node):
+            if isinstance(n, (_ast.Assign, _ast.AugAssign)):
+                for t in (n.targets if isinstance(n, _ast.Assign) else [n.target]):
+                    b = t
+                    while isinstance(b, _ast.Subscript):
+                        b = b.value
+                    if b is not t and isinstance(b, _ast.Name) and b.id == g:
+                        return True
+            if isinstance(n, _ast.Call) and isinstance(n.func, _ast.Attribute) and isinstance(n.func.value, _ast.Name) and \
+                    n.func.value.id == g and n.func.attr in ('update', 'setdefault', 'append', 'add', 'extend', 'insert'):
+                return True
+        return False
+
+    def empties(node, g):
+        for n in _ast.walk(node):
+            if isinstance(n, _ast.Call) and isinstance(n.func, _ast.Attribute) and isinstance(n.func.value, _ast.Name) and \
+                    n.func.value.id == g and n.func.attr in ('clear', 'pop', 'popitem'):
+                return True
+            if isinstance(n, _ast.Delete) and any(isinstance(t, _ast.Subscript) and isinstance(t.value, _ast.Name) and
+                                                  t.value.id == g for t in n.targets):
+                return True
+            if isinstance(n, _ast.Global) and g in n.names:
+                return True
+        return False
+    out = {}
+    for g in sorted(conts):
+        tests = [n for n in _ast.walk(f.node) if isinstance(n, (_ast.If, _ast.IfExp, _ast.While)) and any(
+            isinstance(x, _ast.Name) and x.id == g for x in _ast.walk(n.test))]
+        if not tests or not fills(f.node, g):
+            continue
+        if any(empties(h.node, g) for h in ix.functions_in(f.module.relpath) if h is not f):
+            continue
+        out[g] = _ast.unparse(tests[0].test)[:100]
+    return out
+
+
 def memo_obligation(ix, R, oid, relpaths, what, skip=('__init__', 'init')):
     """No evaluation-path function in the given files keeps history in an attribute
     it both tests and assigns (memo / cache / unchanged-input shortcut), unless
@@ -181,6 +237,11 @@ def memo_obligation(ix, R, oid, relpaths, what, skip=('__init__', 'init')):
                 for d in f.decorators():
                     if ('cache' in d.lower() or 'memo' in d.lower()) and (f.qualname, '@' + d) not in MEMO_ALLOW:
                         bad.append((f, '@' + d, 'decorator'))
+                # a module-level container used as a memo: tested and filled by the function, emptied by nobody
+                for gname, cond in sorted(_module_memos(ix, f).items()):
+                    if (f.qualname, gname) in MEMO_ALLOW:
+                        continue
+                    bad.append((f, 'module-level ' + gname, cond))
     R.check(oid, 'EFF', ', '.join(relpaths),
             'no function of %s keeps an un-invalidated memo: an attribute that is both tested in a condition and '
             'assigned from state or arguments and never reset by another method (or a caching decorator), which '
